@@ -2,7 +2,10 @@
    [later_umount_all] / [later_umount_layer] (Model/Conc.v) perform the later, undisturbed
    umount the way IUmountLayer / IUmountOne do: the mount lines of the freshly read table in
    descending Lex order, one kumount_abs per line, the first failure ends the command.
-   Proved for ALL tables: every umount succeeds and the listed lines are all removed. *)
+   Proved for all tables without a covered line ([ncov]: no line has a LATER line mounted on one
+   of its ancestor directories, Model/Conc.v: hidden_abs): every umount succeeds and the listed
+   lines are all removed.  With a covered line the deepest-first order fails at it
+   ([covered_not_cleared]): that is known finding 1 of C03. *)
 From LC Require Import Lib.Bytes Lib.Lex Lib.Fields Lib.PathM Model.FsTree Model.Conc Cases.C20 Proofs.ConcP Proofs.C20P.
 From Coq Require Import Sorting.Sorted Sorting.Permutation.
 Local Open Scope nat_scope.
@@ -103,16 +106,49 @@ Proof.
   - cbn [filter]. now rewrite IH.
 Qed.
 
+(* ------------------------------------------------------------------ covered lines *)
+Lemma hidden_abs_snoc k x p :
+  hidden_abs (k ++ [x]) p = if beq x p then false else if under x p then true else hidden_abs k p.
+Proof. unfold hidden_abs. rewrite fold_left_app. reflexivity. Qed.
+
+Lemma ncov_snoc k x : ncov (k ++ [x]) = ncov k && forallb (fun y => negb (under x y)) k.
+Proof.
+  induction k as [|y r IH]; cbn [app ncov forallb]; [reflexivity|].
+  rewrite IH, forallb_app. cbn [forallb]. rewrite andb_true_r.
+  destruct (forallb (fun q => negb (under q y)) r), (negb (under x y)), (ncov r), (forallb _ r); reflexivity.
+Qed.
+
+Lemma ncov_not_hidden k p : ncov k = true -> mem_path p k = true -> hidden_abs k p = false.
+Proof.
+  induction k as [|x k IH] using rev_ind; intros Hn Hm; [discriminate|].
+  rewrite ncov_snoc in Hn. apply andb_true_iff in Hn as [Hn Hx]. rewrite hidden_abs_snoc.
+  destruct (beq x p) eqn:E; [reflexivity|].
+  assert (Hm' : mem_path p k = true).
+  { apply mem_path_In in Hm. apply in_app_or in Hm as [Hm|[Hm|[]]]; [now apply mem_path_In|].
+    subst x. now rewrite beq_refl in E. }
+  rewrite forallb_forall in Hx. apply mem_path_In in Hm'. specialize (Hx p Hm').
+  apply negb_true_iff in Hx. rewrite Hx. apply IH; [exact Hn|now apply mem_path_In].
+Qed.
+
+Lemma ncov_remove_last p k : ncov k = true -> ncov (remove_last p k) = true.
+Proof.
+  induction k as [|x r IH]; cbn [remove_last ncov]; [reflexivity|]. intros H.
+  apply andb_true_iff in H as [H1 H2]. destruct (beq x p && negb (mem_path p r)); [exact H2|].
+  cbn [ncov]. rewrite (IH H2), andb_true_r. rewrite forallb_forall in *. intros q Hq.
+  apply H1. now apply (remove_last_incl p r).
+Qed.
+
 (* ------------------------------------------------------------------ the umount sequence *)
-(* the lines of l are in the table, l descends, nothing else in the table lies below a line of l:
-   every umount succeeds, exactly the lines of l go, everything else stays where it is *)
+(* the lines of l are in the table, l descends, nothing else in the table lies below a line of l,
+   no line is covered: every umount succeeds, exactly the lines of l go, everything else stays
+   where it is *)
 Lemma umount_seq_spec l : forall k rest,
   Permutation k (l ++ rest) -> StronglySorted desc l ->
-  (forall p q, In p l -> In q rest -> under p q = false) ->
+  (forall p q, In p l -> In q rest -> under p q = false) -> ncov k = true ->
   Permutation (umount_seq k l) rest /\
   forall g, (forall p, In p l -> g p = false) -> filter g (umount_seq k l) = filter g k.
 Proof.
-  induction l as [|p r IH]; intros k rest HP HS HU; cbn [umount_seq].
+  induction l as [|p r IH]; intros k rest HP HS HU HC; cbn [umount_seq].
   - split; [exact HP|reflexivity].
   - inversion HS as [|? ? HSr HF]; subst.
     assert (Hmem : mem_path p k = true).
@@ -126,28 +162,37 @@ Proof.
         + rewrite Forall_forall in HF. specialize (HF q Hq). unfold desc in HF.
           apply under_lt in Hpq. congruence.
         + rewrite (HU p q) in Hpq; [discriminate|now left|exact Hq]. }
-    unfold kumount_abs. rewrite Hmem, Hno. cbn [andb negb].
+    unfold kumount_abs. rewrite Hmem, Hno, (ncov_not_hidden k p HC Hmem). cbn [andb negb orb].
     assert (HP' : Permutation (remove_last p k) (r ++ rest)).
     { apply Permutation_cons_inv with (a := p). rewrite <- (remove_last_perm p k Hmem). exact HP. }
     destruct (IH (remove_last p k) rest HP' HSr) as [H1 H2].
     { intros p' q Hp' Hq. apply HU; [now right|exact Hq]. }
+    { now apply ncov_remove_last. }
     split; [exact H1|]. intros g Hg. rewrite H2; [|intros p' Hp'; apply Hg; now right].
     apply remove_last_filter. apply Hg. now left.
 Qed.
 
 (* ------------------------------------------------------------------ umount of every line *)
-Theorem later_umount_all_empties_any : forall k, later_umount_all k = [].
+Theorem later_umount_all_empties_any : forall k, ncov k = true -> later_umount_all k = [].
 Proof.
-  intros k. unfold later_umount_all.
+  intros k HC. unfold later_umount_all.
   destruct (umount_seq_spec (rev (Lex.sort k)) k []) as [H _].
   - rewrite app_nil_r. rewrite <- (Permutation_rev (Lex.sort k)). symmetry. apply sort_perm.
   - apply rev_sort_desc.
   - intros p q _ [].
+  - exact HC.
   - apply Permutation_nil. now symmetry.
 Qed.
 
-Theorem later_umount_all_empties : forall k, has_dup k = false -> later_umount_all k = [].
+Theorem later_umount_all_empties : forall k, has_dup k = false -> ncov k = true -> later_umount_all k = [].
 Proof. intros k _. apply later_umount_all_empties_any. Qed.
+
+(* a covered line is not cleared: import, then a mount on an ancestor directory of its mountpoint;
+   the deepest-first order calls umount(2) on the hidden mountpoint first and stops there *)
+Example covered_not_cleared :
+  let k := [bs "/b/layers/l1/build/var/db/repos"; bs "/b/layers/l1/build/var/db"] in
+  has_dup k = false /\ ncov k = false /\ later_umount_all k = k.
+Proof. vm_compute. auto. Qed.
 
 (* ------------------------------------------------------------------ umount of one layer *)
 Lemma filter_split {A} (f : A -> bool) l : Permutation l (filter f l ++ filter (fun x => negb (f x)) l).
@@ -166,11 +211,11 @@ Proof.
   - intros H. apply IH. intros y Hy. apply H. now right.
 Qed.
 
-Lemma later_umount_layer_spec bld k :
+Lemma later_umount_layer_spec bld k : ncov k = true ->
   Permutation (later_umount_layer bld k) (filter (fun q => negb (at_or_below bld q)) k) /\
   filter (fun q => negb (at_or_below bld q)) (later_umount_layer bld k) = filter (fun q => negb (at_or_below bld q)) k.
 Proof.
-  unfold later_umount_layer.
+  intros HC. unfold later_umount_layer.
   assert (Hin : forall p, In p (rev (Lex.sort (filter (at_or_below bld) k))) -> at_or_below bld p = true).
   { intros p Hp. apply in_rev in Hp. apply (proj1 (Lex.sort_in _ _)) in Hp. now apply filter_In in Hp. }
   destruct (umount_seq_spec (rev (Lex.sort (filter (at_or_below bld) k))) k
@@ -179,26 +224,38 @@ Proof.
   - apply rev_sort_desc.
   - intros p q Hp Hq. apply Hin in Hp. apply filter_In in Hq as [_ Hq]. apply negb_true_iff in Hq.
     destruct (under p q) eqn:E; [|reflexivity]. rewrite (at_or_below_down _ _ _ Hp E) in Hq. discriminate.
+  - exact HC.
   - split; [exact H1|]. apply H2. intros p Hp. now rewrite (Hin p Hp).
 Qed.
 
-Theorem later_umount_layer_clears_any : forall bld k,
+Theorem later_umount_layer_clears_any : forall bld k, ncov k = true ->
   filter (at_or_below bld) (later_umount_layer bld k) = [] /\
   filter (fun q => negb (at_or_below bld q)) (later_umount_layer bld k) = filter (fun q => negb (at_or_below bld q)) k.
 Proof.
-  intros bld k. destruct (later_umount_layer_spec bld k) as [H1 H2]. split; [|exact H2].
+  intros bld k HC. destruct (later_umount_layer_spec bld k HC) as [H1 H2]. split; [|exact H2].
   apply filter_nil_iff. intros x Hx. apply (Permutation_in _ H1) in Hx. apply filter_In in Hx as [_ Hx].
   now apply negb_true_iff in Hx.
 Qed.
 
-Theorem later_umount_layer_clears : forall bld k, has_dup k = false ->
+Theorem later_umount_layer_clears : forall bld k, has_dup k = false -> ncov k = true ->
   filter (at_or_below bld) (later_umount_layer bld k) = [] /\
   filter (fun q => negb (at_or_below bld q)) (later_umount_layer bld k) = filter (fun q => negb (at_or_below bld q)) k.
 Proof. intros bld k _. apply later_umount_layer_clears_any. Qed.
 
 (* ------------------------------------------------------------------ the clause of the case predicate *)
-Theorem later_ok_model : forall k, C20.later_ok k (later_umount_all k) = true.
-Proof. intros k. unfold C20.later_ok. rewrite later_umount_all_empties_any. apply orb_true_r. Qed.
+Theorem later_ok_model : forall k, ncov k = true -> C20.later_ok k (later_umount_all k) = true.
+Proof. intros k HC. unfold C20.later_ok. rewrite later_umount_all_empties_any by exact HC. apply orb_true_r. Qed.
+(* ... and without the hypothesis the clause is false of the machine *)
+Example later_ok_covered_refuted :
+  C20.later_ok [bs "/b/layers/l1/build/var/db/repos"; bs "/b/layers/l1/build/var/db"]
+               (later_umount_all [bs "/b/layers/l1/build/var/db/repos"; bs "/b/layers/l1/build/var/db"]) = false.
+Proof. vm_compute. reflexivity. Qed.
+
+Theorem covered_not_cleared_ex : exists k, has_dup k = false /\ ncov k = false /\ later_umount_all k = k
+  /\ C20.later_ok k (later_umount_all k) = false.
+Proof.
+  exists [bs "/b/layers/l1/build/var/db/repos"; bs "/b/layers/l1/build/var/db"]. vm_compute. auto.
+Qed.
 
 (* ------------------------------------------------------------------ stacked mountpoints *)
 (* The converse "a stacked mountpoint survives the later umount" is FALSE of the command as it
@@ -246,11 +303,11 @@ Proof.
   unfold umount_once_each in E. rewrite E, rev_length, (Permutation_length (sort_perm _)) in L.
   pose proof (dedup_length_dup k H). cbn [length] in L. lia.
 Qed.
-Theorem once_each_empties : forall k, has_dup k = false -> umount_once_each k = [].
-Proof. intros k H. unfold umount_once_each. rewrite (dedup_nodup k H). apply later_umount_all_empties_any. Qed.
-Theorem once_each_iff : forall k, umount_once_each k = [] <-> has_dup k = false.
+Theorem once_each_empties : forall k, ncov k = true -> has_dup k = false -> umount_once_each k = [].
+Proof. intros k HC H. unfold umount_once_each. rewrite (dedup_nodup k H). now apply later_umount_all_empties_any. Qed.
+Theorem once_each_iff : forall k, ncov k = true -> (umount_once_each k = [] <-> has_dup k = false).
 Proof.
-  intros k. split; [|apply once_each_empties]. intros E. destruct (has_dup k) eqn:H; [|reflexivity].
+  intros k HC. split; [|now apply once_each_empties]. intros E. destruct (has_dup k) eqn:H; [|reflexivity].
   now apply once_each_leaves_stacked in H.
 Qed.
 
